@@ -167,6 +167,9 @@ def build_model(argv, f):
 
 
 _SHARED_MEDIA = {}
+_SHARED_ARGS = {}       # caller-owned argument arrays, reused by later models of this interpreter
+ARG_DAMAGE = []         # keys of argument arrays the program modified in place
+_ARG_REPORTED = set()
 
 
 def build_direct(spec, f):
@@ -188,7 +191,34 @@ def build_direct(spec, f):
         media = _SHARED_MEDIA['real']
     elif spec.get('ground') == 'ideal':
         media = [mm.Medium(0, 0)]
-    m = mm.Mininec(f, wires, media=media)
+    trs = spec.get('transforms') or []
+    if trs:
+        # geometry container + transformations, handing in caller-owned
+        # numpy arrays that the same caller reuses for its next model
+        geo = mm.Geo_Container()
+        for w in wires:
+            geo.append(w)
+        geo.compute_tags()
+        for tr in trs:
+            if tr[0] == 'scale':
+                geo.scale(tr[1], tr[2])
+                continue
+            key = repr(tr[2])
+            if spec.get('share_args'):
+                if key not in _SHARED_ARGS:
+                    _SHARED_ARGS[key] = (np.array(tr[2], dtype=float), np.array(tr[2], dtype=float).tobytes())
+                else:
+                    S.fired('caller_array_reused')
+                arr = _SHARED_ARGS[key][0]
+            else:
+                arr = list(tr[2])
+            getattr(geo, tr[0])(tr[1], arr, tr[3])
+        m = mm.Mininec(f, geo, media=media)
+        for key, (arr, orig) in _SHARED_ARGS.items():
+            if arr.tobytes() != orig and key not in ARG_DAMAGE:
+                ARG_DAMAGE.append(key)
+    else:
+        m = mm.Mininec(f, wires, media=media)
     for (v, p) in spec['sources']:
         m.register_source(mm.Excitation(cvolt=complex(v)), p)
     for (z, p) in spec.get('loads', []):
@@ -841,10 +871,14 @@ def run_history(plan, start=0, disk_files=None, positions=None, apistates=None):
             if rt.m is not None:
                 before = abstract_state(rt.m, rt.st)
             executed, sec, info = rt.run_op(op)
+            for key in ARG_DAMAGE:
+                if key not in _ARG_REPORTED:
+                    _ARG_REPORTED.add(key)
+                    rec.setdefault('held_changed', []).append(('argument array %s' % key, rt.point()))
             if executed and rt.m is not None and rt.dead is None:
                 changed = rt.check_held()
                 if changed:
-                    rec['held_changed'] = changed
+                    rec['held_changed'] = rec.get('held_changed', []) + changed
                 if kind in ('COMPUTE', 'FAR', 'NEAR') and not info.get('premature'):
                     rt.hold_results(kind)
             if not executed and info.get('dead') and info['dead'][0] == 'BUILD' \
